@@ -190,3 +190,60 @@ Section Sorting.
     intros H. apply sorted_perm_unique; [apply isort_sorted|exact H|apply isort_perm].
   Qed.
 End Sorting.
+
+(** Uniqueness of the sorted permutation when the order is total on the
+    elements at hand only (e.g. pairs with distinct keys). *)
+Section UniqueOn.
+  Context {A : Type} (lt : A -> A -> bool) (dom : list A).
+  Hypothesis lt_total_on : forall a b, In a dom -> In b dom -> lt a b = true \/ a = b \/ lt b a = true.
+
+  Lemma sorted_unique_on_gen l1 : forall l2,
+    incl l1 dom -> incl l2 dom ->
+    StronglySorted (fun a b => lt b a = false) l1 ->
+    StronglySorted (fun a b => lt b a = false) l2 ->
+    Permutation l1 l2 -> l1 = l2.
+  Proof.
+    induction l1 as [|x xs IH]; intros l2 Hd1 Hd2 H1 H2 Hp.
+    - apply Permutation_nil in Hp. congruence.
+    - destruct l2 as [|y ys]; [apply Permutation_sym, Permutation_nil in Hp; discriminate|].
+      inversion H1 as [|? ? H1' Hall1]; subst. inversion H2 as [|? ? H2' Hall2]; subst.
+      assert (x = y) as ->.
+      { assert (Hx : In x (y :: ys)) by (eapply Permutation_in; [exact Hp|left; reflexivity]).
+        assert (Hy : In y (x :: xs)) by (eapply Permutation_in; [symmetry; exact Hp|left; reflexivity]).
+        destruct Hx as [->|Hx]; [reflexivity|]. destruct Hy as [->|Hy]; [reflexivity|].
+        rewrite Forall_forall in Hall1, Hall2.
+        specialize (Hall1 y Hy). specialize (Hall2 x Hx).
+        destruct (lt_total_on x y) as [H|[H|H]]; try congruence;
+          [apply Hd1; left; reflexivity|apply Hd2; left; reflexivity]. }
+      f_equal. apply IH; try assumption.
+      + intros z Hz. apply Hd1. right; exact Hz.
+      + intros z Hz. apply Hd2. right; exact Hz.
+      + eapply Permutation_cons_inv; exact Hp.
+  Qed.
+End UniqueOn.
+
+(** insertion sort is sorted for any comparison that is irreflexive,
+    transitive and total on the list's elements *)
+Section SortOn.
+  Context {A : Type} (lt : A -> A -> bool).
+
+  Lemma insert_by_sorted_on x l :
+    (forall a b c, lt a b = false -> lt b c = false -> lt a c = false) ->
+    (forall a b, lt a b = true -> lt b a = false) ->
+    StronglySorted (fun a b => lt b a = false) l ->
+    StronglySorted (fun a b => lt b a = false) (insert_by lt x l).
+  Proof.
+    intros Hntrans Hasym. induction l as [|y ys IH]; cbn; intros Hs.
+    - constructor; constructor.
+    - inversion Hs as [|? ? Hs' Hall]; subst.
+      destruct (lt x y) eqn:E.
+      + constructor; [exact Hs|]. constructor.
+        * apply Hasym. exact E.
+        * eapply Forall_impl; [|exact Hall]. intros z Hz. cbn in Hz.
+          (* lt z y = false, lt y x = false  ->  lt z x = false *)
+          eapply Hntrans; [exact Hz|apply Hasym; exact E].
+      + constructor; [apply IH; exact Hs'|].
+        eapply Permutation_Forall; [symmetry; apply insert_by_perm|].
+        constructor; [exact E|exact Hall].
+  Qed.
+End SortOn.
